@@ -23,6 +23,8 @@ MARK_RE = re.compile(r'//@\s*((?:C\d\d\b\s*)*)\|?\s*([^\n]*)')
 UNITS = {
     'mapper': dict(modules=['key_codes', 'events', 'keys', 'key_transforms'], spec=['trace.rs'],
                    verify=['keys', 'key_transforms', 'trace'], default_tags={'key_transforms': ['C14'], 'keys': ['C14']}),
+    'converter': dict(modules=['key_codes', 'events', 'keys', 'fancy_keys', 'physical_keyboard_layouts', 'char_production_map', 'fancy_layout_interpreting'], spec=[],
+                      default_tags={'fancy_layout_interpreting': ['C14'], 'fancy_keys': ['C14'], 'keys': ['C14']}),
     'loop': dict(modules=['key_codes', 'events', 'keys', 'key_transforms', 'tablet_mode_switch_reader', 'remapping_loop'], spec=[],
                  verify_only=['remapping_loop'], default_tags={'remapping_loop': ['C10', 'C12', 'C20', 'C11']}),
 }
